@@ -5,8 +5,8 @@
 cd /verif
 IDS=${@:-$(ls seeded)}
 for id in $IDS; do
-  for prop in $(python3 -c "import json;print(' '.join(json.load(open('seeded/$id/meta.json'))['caught_by']))"); do
+  for prop in $(python3 -c "import json,re;print(' '.join(sorted(set(re.findall(r'C\d\d', ' '.join(json.load(open('seeded/$id/meta.json'))['caught_by']))))))"); do
     echo -n "$id -> "
-    tools/test_seed_isolated.sh /verif/seeded/$id/patch.diff $prop quick 2>&1 | tail -1 | cut -c1-260
+    INST=${INST:-a} tools/test_seed_isolated.sh /verif/seeded/$id/patch.diff $prop quick 2>&1 | tail -1 | cut -c1-260
   done
 done
